@@ -4,6 +4,9 @@ import (
 	"context"
 	"fmt"
 	"math/rand"
+	"os"
+	"strings"
+	"time"
 
 	"github.com/MinterTeam/minter-go-node/api/v2/service"
 	"github.com/MinterTeam/minter-go-node/coreV2/rewards"
@@ -19,6 +22,7 @@ type Querier struct {
 	Panics  map[string]int // handler panics (the gRPC recovery middleware would answer Internal)
 	Calls   map[string]int
 	Errors  int
+	Recent  []string // kinds of the latest requests, oldest first (diagnostics)
 }
 
 func NewQuerier(n *Node) *Querier {
@@ -50,7 +54,16 @@ func (q *Querier) Query(v *View, x int64, committed uint64) {
 	amount := Amt{Mode: 0, M: uint64(1 + r.Intn(999)), E: r.Intn(26)}.resolve(nil).String()
 	kinds := []string{"Address", "Addresses", "Candidate", "Candidates", "CoinInfoById", "SwapPool", "SwapPools", "LimitOrders", "LimitOrdersOfPool", "BestTrade", "EstimateCoinSell", "EstimateCoinBuy", "EstimateCoinSellAll", "WaitList", "Frozen", "FrozenAll", "MissedBlocks", "Export"}
 	kind := kinds[r.Intn(len(kinds))]
+	if only := os.Getenv("SIM_QKINDS"); only != "" { // development aid: restrict the handlers used
+		if !strings.Contains(","+only+",", ","+kind+",") {
+			return
+		}
+	}
 	q.Calls[kind]++
+	q.Recent = append(q.Recent, fmt.Sprintf("%s(h=%d)", kind, h))
+	if len(q.Recent) > 12 {
+		q.Recent = q.Recent[len(q.Recent)-12:]
+	}
 	defer func() {
 		if rec := recover(); rec != nil {
 			q.Panics[kind]++
@@ -212,9 +225,113 @@ func (m *MonC25A) Finish(w *World) {
 	}
 }
 
+// MonC25B (instrumented build only): TIER B. The body of an ABCI call of the main node runs as task 0
+// of simrt's cooperative scheduler together with 1..3 query tasks (real api/v2 handlers, CheckTx);
+// a task switch is possible at every lock point of coreV2/** and api/v2/service, the next task is
+// drawn from the run's PRNG, so one seed is one interleaving. Oracles: no task panics, no deadlock
+// (every live task waiting for a lock held by a parked one), and - through MonC25A's reference twin -
+// every response and app hash equal to a node that served no queries.
+type MonC25B struct {
+	NopMonitor
+	q       *Querier
+	r       *rand.Rand
+	classes map[string]bool
+	calls   int
+}
+
+func (m *MonC25B) Genesis(w *World) {
+	if !Instrumented || w.Node == nil {
+		return
+	}
+	m.q = NewQuerier(w.Node)
+	m.r = rand.New(rand.NewSource(w.Sc.Seed ^ 0x25b))
+	m.classes = map[string]bool{}
+	w.Node.Inter = func(name string, f func()) { m.interleave(w, name, f) }
+}
+
+func (m *MonC25B) interleave(w *World, name string, f func()) {
+	m.calls++
+	p := 0.2
+	switch name {
+	case "Commit":
+		p = 0.6
+	case "EndBlock", "BeginBlock":
+		p = 0.35
+	case "InitChain", "Info", "CheckTx":
+		p = 0
+	}
+	if w.Prev == nil || m.r.Float64() >= p {
+		f()
+		return
+	}
+	h := int64(w.Prev.Height) + 1
+	v := &View{S: w.Prev, Height: uint64(h), NAcct: w.Sc.Gen.NAcct, Chain: w.Chain, NonceAdd: map[types.Address]uint64{}, Log: w.Log}
+	nq := 1 + m.r.Intn(3)
+	fs := []func(){f}
+	for k := 0; k < nq; k++ {
+		var xs []int64
+		for j := 1 + m.r.Intn(3); j > 0; j-- {
+			xs = append(xs, int64(m.r.Intn(1<<30)))
+		}
+		fs = append(fs, func() {
+			for _, x := range xs {
+				// (no CheckTx here: with Tendermint's local ABCI client all ABCI calls share one mutex, so
+				// CheckTx never overlaps another ABCI call; API handlers do)
+				m.q.Query(v, x, w.Prev.Height)
+			}
+		})
+	}
+	m.q.Recent = nil
+	res := runInterleaved(func(n int) int { return m.r.Intn(n) }, fs, 60*time.Second)
+	if os.Getenv("SIM_TRACE") != "" {
+		fmt.Fprintf(os.Stderr, "TRACE h=%d tierB %s tasks=%d switches=%d points=%d blocked=%d trace=%.60s queries=%v panics=%v\n", h, name, len(fs), res.Switches, res.Points, res.Blocked, res.Trace, m.q.Recent, res.Panics)
+	}
+	w.Stats.Probes["c25b_lock_points"] += res.Points
+	w.Stats.Probes["c25b_task_switches"] += res.Switches
+	w.Stats.Probes["c25b_waits_for_parked_lock_holder"] += res.Blocked
+	w.Probe("c25b_interleaved_" + name)
+	m.classes[name] = true
+	if res.Stalled {
+		w.InfraErr = fmt.Errorf("C25 tier B: the running task reached no lock point for 60 s inside %s at height %d (uninstrumented blocking call?)", name, h)
+		return
+	}
+	if res.Deadlock {
+		where := ""
+		for _, c := range res.Cycle {
+			head := c
+			if j := strings.Index(c, "\n"); j > 0 {
+				head = c[:j]
+			}
+			where += "\n-- " + head + "\n" + repoFrames(c, 8)
+		}
+		tr := res.Trace
+		if len(tr) > 80 {
+			tr = "..." + tr[len(tr)-80:]
+		}
+		w.Report("C25", "queries", "deadlock@"+name, fmt.Sprintf("height %d: %s interleaved with %d query task(s) at lock points: every live task waits for a lock held by a parked task; requests %v; interleaving %s%s", h, name, nq, m.q.Recent, tr, where), h)
+	} else {
+		for i := range res.Done {
+			if !res.Done[i] && !res.Stalled {
+				w.InfraErr = fmt.Errorf("C25 tier B: scheduler returned with task %d unfinished", i)
+			}
+		}
+	}
+	for i := 1; i < len(res.Panics); i++ {
+		if res.Panics[i] != nil && !res.Deadlock {
+			w.Report("C25", "queries", "query-task-panics@"+topRepoFrame(res.Stacks[i]), fmt.Sprintf("height %d: query task interleaved with %s panicked: %v\n%s", h, name, res.Panics[i], trimStack(res.Stacks[i])), h)
+		}
+	}
+	if res.Panics[0] != nil {
+		if w.Viol == nil {
+			w.Report("C25", "queries", "executor-panics@"+name+"@"+topRepoFrame(res.Stacks[0]), fmt.Sprintf("height %d: %s panicked while interleaved with %d query task(s) (interleaving %s; requests started: %v): %v\n%s", h, name, nq, res.Trace, m.q.Recent, res.Panics[0], trimStack(res.Stacks[0])), h)
+		}
+		panic(relayedPanic{V: res.Panics[0], Stack: res.Stacks[0]})
+	}
+}
+
 func init() {
 	register(&PropSpec{ID: "C25", Level: "exploration",
-		Rule: "TIER A (deterministic, single goroutine): bursts of read-only API requests through the real api/v2 service handlers (Address(es), Candidate(s), CoinInfo, SwapPool(s), LimitOrder(s), BestTrade both directions, EstimateCoinSell/Buy/SellAll over bancor / pool / optimal, WaitList, Frozen, MissedBlocks, export of a committed height) and CheckTx calls are placed after BeginBlock, between DeliverTx calls, after EndBlock and after Commit, on the current (mid-block, shared with the executor) and on committed states; a reference node without any query executes the same blocks; every response and app hash must be equal; distinct non-trivial case = distinct (handler, phase) pair exercised",
+		Rule: "TIER B (instrumented build): ABCI call bodies run under a seeded cooperative scheduler with 1..3 query tasks, switches at every lock point of coreV2/** and api/v2/service; no panic, no lock cycle, results equal to the query-free reference. TIER A (deterministic, single goroutine): bursts of read-only API requests through the real api/v2 service handlers (Address(es), Candidate(s), CoinInfo, SwapPool(s), LimitOrder(s), BestTrade both directions, EstimateCoinSell/Buy/SellAll over bancor / pool / optimal, WaitList, Frozen, MissedBlocks, export of a committed height) and CheckTx calls are placed after BeginBlock, between DeliverTx calls, after EndBlock and after Commit, on the current (mid-block, shared with the executor) and on committed states; a reference node without any query executes the same blocks; every response and app hash must be equal; distinct non-trivial case = distinct (handler, phase) pair exercised",
 		Make: func(r *rand.Rand, seed int64, chain int, tier string) *Scenario {
 			p := GeneralProfile()
 			sc := baseScenario("C25", r, seed, chain, tier, p, func(g *GenCfg, n *NodeCfg) {
@@ -229,7 +346,12 @@ func init() {
 			}
 			return sc
 		},
-		Monitors: func(sc *Scenario) []Monitor { return []Monitor{&MonC25A{}} },
+		Monitors: func(sc *Scenario) []Monitor {
+			if Instrumented {
+				return []Monitor{&MonC25A{}, &MonC25B{}}
+			}
+			return []Monitor{&MonC25A{}}
+		},
 		Distinct: func(w *World) []string {
 			for _, m := range w.Monitors {
 				if c, ok := m.(*MonC25A); ok && c.q != nil {
@@ -244,7 +366,31 @@ func init() {
 			}
 			return nil
 		},
-		ExpectProbes: []string{"c25_block_compared", "c25_query_after-begin", "c25_query_between-txs", "c25_query_after-end", "c25_query_after-commit", "c25_checktx_interleaved"},
-		Assumptions: []string{"tier A places queries at ABCI call boundaries in the executor's own goroutine (fully deterministic); interleavings at lock points inside a call are not explored by this tier"},
+		ExpectProbes: []string{"c25_block_compared", "c25_query_after-begin", "c25_query_between-txs", "c25_query_after-end", "c25_query_after-commit", "c25_checktx_interleaved", "c25b_interleaved_BeginBlock", "c25b_interleaved_DeliverTx", "c25b_interleaved_EndBlock", "c25b_interleaved_Commit", "c25b_task_switches", "c25b_waits_for_parked_lock_holder"},
+		Assumptions: []string{"tier A places queries at ABCI call boundaries in the executor's own goroutine; tier B switches tasks only at instrumented lock points (one task runs at a time), so data races on unlocked memory are not observed as such - only their effect on results, panics and lock cycles", "CheckTx is never interleaved inside another ABCI call: Tendermint's local ABCI client serialises them"},
 	})
+}
+
+// repoFrames keeps the first n frames of a stack dump that belong to the repository.
+func repoFrames(st string, n int) string {
+	var out []string
+	lines := strings.Split(st, "\n")
+	for i := 0; i+1 < len(lines) && len(out) < n; i++ {
+		l := lines[i]
+		if strings.Contains(l, "github.com/MinterTeam/minter-go-node/") && !strings.Contains(l, "/simrt.") && !strings.HasPrefix(l, "\t") {
+			loc := strings.TrimSpace(lines[i+1])
+			if j := strings.LastIndex(loc, "/repo/"); j >= 0 {
+				loc = loc[j+6:]
+			}
+			if j := strings.Index(loc, " +0x"); j >= 0 {
+				loc = loc[:j]
+			}
+			fn := l
+			if j := strings.LastIndex(fn, "("); j > 0 {
+				fn = fn[:j]
+			}
+			out = append(out, "   "+strings.TrimPrefix(fn, "github.com/MinterTeam/minter-go-node/")+"  "+loc)
+		}
+	}
+	return strings.Join(out, "\n")
 }
